@@ -645,3 +645,13 @@ F("M04", "C17", EC, "    giant_steps = 2 + n // t\n", "    giant_steps = 2 + n /
 F("M05", "C10", EC, "    giant_steps = 2 + n // t\n", "    giant_steps = 2 + n // (2 * self._table_size - 1)\n", "R-C10-COVER", "the same change seen from C10")
 F("M06", "C03", RA, "      if gcds[i] >= self._gcd_bound:", "      if gcds[i].bit_length() >= self._gcd_bound.bit_length():", "R-C03-VERDICT", "N-1 verdict compares bit lengths")
 T("M07", "C03", RA, "      if gcds[i] >= self._gcd_bound:", "      if not gcds[i] < self._gcd_bound:", "N-1 verdict with a negated comparison")
+F("M10", "C19", LSU, "    if diff < best_diff:\n      best_j, best_diff = j, diff\n", "    if diff < best_diff:\n      best_j, best_diff = j, diff\n    elif best_j:\n      break\n", "R-C19-PSEUDOAVG", "scan stops at the first local minimum (seed r4)")
+F("M11", "C19", LSU, "    diff = 2 * sx * m + j * (const_j - j * n)", "    diff = 2 * sx * m + j * (const_j - n)", "R-C19-PSEUDOAVG", "variance change misses the j^2 n term")
+F("M12", "C19", LSU, "  pseudo_average = (sum_a + n * best_j + m // 2) // m % n", "  pseudo_average = (sum_a + n * best_j) // m % n", "R-C19-PSEUDOAVG", "mean truncated instead of rounded")
+T("M13", "C19", LSU, "    diff = 2 * sx * m + j * (const_j - j * n)\n    if diff < best_diff:\n      best_j, best_diff = j, diff", "    delta = j * (n * m - 2 * sum_a) - j * j * n + 2 * m * sx\n    if not delta >= best_diff:\n      best_diff = delta\n      best_j = j",
+  "variance change expanded, comparison negated, tuple assignment split")
+F("M20", "C13", NS, "  if excursions >= 500:\n    for x in range(-max_state, max_state + 1):", "  if excursions >= min(0.005 * math.sqrt(n), 500):\n    for x in range(-max_state, max_state + 1):", "R-C13-GATE", "excursion test gated on min(.., 500) (seed r4)")
+T("M21", "C13", NS, "  if excursions >= 500:\n    for x in range(-max_state, max_state + 1):", "  if excursions >= max(0.005 * math.sqrt(n), 500):\n    for x in range(-max_state, max_state + 1):", "excursion test gated on NIST's max(0.005 sqrt n, 500): stricter, still >= 500")
+F("M22", "C20", L + "randomness_tests/rng.py", "        64: 2862933555777941757,", "        64: 2862933555777941775,", "R-C20-CONST", "64-bit multiplier digits transposed")
+F("M23", "C16", L + "paranoid.py", "def GetECAllChecks() -> dict[str, base_check.ECKeyCheck]:\n  if not _check_factory[_EC_ALL]:", "def GetECAllChecks() -> dict[str, base_check.ECKeyCheck]:\n  if not _check_factory[_EC_SINGLES]:", "R-C16-REGISTRY", "combined EC table guarded by the single-check table (seed r4)")
+F("M24", "C18", EC, "        tmp[i] = (p[0] - q[0]) % self.mod\n    tmp = self.BatchInverse(tmp)\n    for i, v in enumerate(tmp):\n      if v:\n        t = v * (p[1] - points[i][1]) % self.mod\n        x =", "        tmp[i] = p[0] - q[0]\n    tmp = self.BatchInverse(tmp)\n    for i, v in enumerate(tmp):\n      if v:\n        t = v * (p[1] - points[i][1]) % self.mod\n        x =", "R-C18-INVERT", "BatchAddX hands unreduced differences to BatchInverse (seed r4)")
